@@ -52,7 +52,7 @@ def make_check(max_choices, **run_kw):
 def _strategy():
     return st.one_of(gp.programs(), gp.programs(), gp.programs(), gp.programs(), gp.programs(), gp.programs(),
                      gp.programs(share_bias=True, max_preds=3), gp.programs(share_bias=True, max_preds=3),
-                     gp.dense_cycles()).map(lambda p: {"prog": p})
+                     gp.dense_cycles(), gp.reach_programs()).map(lambda p: {"prog": p})
 
 
 def render(case):
